@@ -5,6 +5,7 @@ pub enum CEffect {
     Data { id: u32, bytes: Seq<u8> },          // session.write_data_frame(id, bytes) accepted
     CloseWithError { id: u32 },                // stream.close_with_error(..)
     Fin { id: u32 },                           // stream.send_fin(): the end of the stream announced to the peer
+    Closed,                                    // session.close(): the whole session torn down
     Released,                                  // the session went back to the pool (Client::release_session, under contract in group `reuse`)
 }
 pub struct RecvError;
@@ -51,6 +52,8 @@ impl Session {
         ensures r is Ok ==> final(fx)@ == old(fx)@.push(CEffect::Data { id: stream_id, bytes: data@ }),
                 r is Err ==> final(fx)@ == old(fx)@
     { unimplemented!() }
+    #[verifier::external_body]
+    pub fn close(&self, fx: &mut Ghost<Seq<CEffect>>) -> (r: Result<()>) ensures final(fx)@ == old(fx)@.push(CEffect::Closed) { unimplemented!() }
     #[verifier::external_body]
     pub fn peer_version(&self) -> (r: u8) { unimplemented!() }
     #[verifier::external_body]
